@@ -275,8 +275,15 @@ def wl_sketch_pairs(ctx, rng, case):
     classes = [P.CountMinSketch, P.CountMeanSketch, P.CountMeanMinSketch]
     ca, cb = rng.choice(classes), rng.choice(classes)
     w, d = rng.randint(2, 9), rng.randint(1, 5)
-    kind = rng.choice(["same", "other_width", "other_depth", "other_hash"])
+    kind = rng.choice(["same", "other_width", "other_depth", "other_hash", "same_cell_count"])
     w2, d2 = w, d
+    if kind == "same_cell_count":
+        # another geometry with the SAME number of counters (transposed, or another factorisation of width*depth)
+        alts = [(w * d // dd, dd) for dd in range(1, w * d + 1) if (w * d) % dd == 0 and dd != d and dd <= 12 and w * d // dd >= 2]  # width 1 is outside the mean-min query's domain
+        if not alts:
+            w, d = 6, 2
+            alts = [(4, 3), (3, 4), (2, 6), (12, 1)]
+        w2, d2 = rng.choice(alts)
     hname, hf = gen.pick_hash(rng, keys)
     hname2, hf2 = hname, hf
     if kind == "other_width":
